@@ -23,8 +23,7 @@ Definition wf_section (s : section) : Prop :=
 Definition ser_section (s : section) : bytes :=
   [0; flags s * 16 + section_length s / 256; section_length s mod 256]
   ++ hdr s ++ concat (map ser_entry (entries s)) ++ crc s.
-(* payload bytes: pointer_field = 0 (hypothesis of C07: the accessors hard-code offset 8), the section,
-   then anything (stuffing) *)
+(* payload bytes with pointer_field = 0: the section, then anything (stuffing); the general form is ser_payload_pf below *)
 Definition ser_payload (s : section) (rest : bytes) : bytes := 0 :: ser_section s ++ rest.
 
 (* ---- what the accessors must return ---- *)
@@ -60,13 +59,6 @@ Definition wf_packet (h : pkt_hdr) (af : option bytes) (payload : bytes) : Prop 
 (* ---- payloads whose pointer_field is k: k bytes (the end of a previous section, or stuffing) precede the section ---- *)
 Definition ser_payload_pf (k : N) (filler : bytes) (s : section) (rest : bytes) : bytes :=
   k :: filler ++ ser_section s ++ rest.
-(* n four-byte groups read as entries, whatever the bytes are *)
-Fixpoint raw_entries (n : nat) (bs : bytes) : list entry :=
-  match n, bs with
-  | S k, a :: b :: c :: d :: t => mkE (a * 256 + b) ((c mod 32) * 256 + d) (c / 32) :: raw_entries k t
-  | _, _ => []
-  end.
-
 (* ---- executable oracle (used by `spec.pat` of modelexec): the observations the property determines,
         computed from the logical entry list alone ---- *)
 (* insertion into a strictly increasing key list *)
